@@ -6,7 +6,7 @@ import worldgen as W
 ID = "C09"
 LEAN_TARGETS = ["Rsp.Props.C09", "Rsp.Tie.C09"]
 THEOREMS = ["Rsp.Props.C09.scan_inv", "Rsp.Props.C09.choose_meets_spec", "Rsp.Props.C09.never_failing",
-            "Rsp.Props.C09.choose_lost_ok", "Rsp.Props.C09.failback",
+            "Rsp.Props.C09.choose_lost_ok", "Rsp.Props.C09.failback", "Rsp.Props.C09.connectStart_blocking", "Rsp.Props.C09.connectStart_reconnecting_iff",
             "Rsp.Tie.C09.maxLost_tie", "Rsp.Tie.C09.stStartup_tie", "Rsp.Tie.C09.stBlocking_tie", "Rsp.Tie.C09.stConnected_tie",
             "Rsp.Tie.C09.stReconnecting_tie", "Rsp.Tie.C09.stFailing_tie", "Rsp.Tie.C09.chooseBetter_tie", "Rsp.Tie.C09.lostLt_tie"]
 RULE = ("choosesrvconf called on hand-built conf lists: every (state x lost 0..16) vector for <=2 servers, every vector over losses {0,1,2,3,15,16} for 3 servers "
@@ -35,6 +35,11 @@ def gen(rng, tier):
     ents3 = [f"{s}:{l}" for s in range(5) for l in losses3]
     for t in itertools.product(ents3, repeat=3):
         cs.append(Case("choose " + " ".join(t), n=3))
+    # the state a server is left in by the start of a connection attempt (all three connecters x all states x first/re-connection)
+    for t in (1, 2, 3):
+        for st in range(5):
+            for rc in (0, 1):
+                cs.append(Case(f"connstate {t} {st} {rc}", n=2))
     for _ in range(20000 if tier == "quick" else 400000):
         n = rng.choice([3, 4, 4, 4, 5, 6])
         t = []
@@ -53,7 +58,7 @@ def gen(rng, tier):
 
 
 def project(op, line):
-    return line if op == "choose" else WH.project(ID, op, line)
+    return line if op in ("choose", "connstate") else WH.project(ID, op, line)
 
 
 relevant_verdict = WP.make_relevant(ID)
@@ -133,6 +138,8 @@ def gen_run(exe, rng, tier):
 
 
 def nontrivial(c):
+    if c.lines and c.lines[0].startswith("connstate"):
+        return True
     if c.tags.get("kind") == "world":
         return sum(1 for k in c.tags if k.startswith("chosen:")) >= 2
     toks = c.lines[0].split()[1:]
